@@ -274,7 +274,7 @@ def run(chk, replay=None):
         idx += 1
     if not replay:
         # directed stream: every component kind certainly present, terminals off ground, both orientations
-        ndirected = 2 if quick else 12
+        ndirected = 4 if quick else 16
         for kind in gen_netlist.DIRECTED_KINDS:
             for j in range(ndirected):
                 case = gen_netlist.directed_case(rng, kind, floating=(j % 2 == 0))
